@@ -1,4 +1,4 @@
-From Verif Require Import Lib.Base Registry.Model Registry.Lemmas Registry.Proofs Registry.ProofsRt Registry.ProofsAddr Registry.ProofsStatus Registry.Sanity Gen.RegistryConsts.
+From Verif Require Import Lib.Base Registry.Model Registry.Lemmas Registry.Proofs Registry.ProofsRt Registry.ProofsAddr Registry.ProofsStatus Registry.Sanity Registry.ProofsR3 Gen.RegistryConsts.
 
 (* G: the SetNode of the CURRENT source performs all key-map removals before the
    first insertion (read from the source by harness/cmd/gen registryconsts) ... *)
@@ -209,8 +209,10 @@ Print Assumptions claims_mirror.
    whose caller is the staking account controlling the EXISTING descriptor
    (entity governance: the owning entity; runtime governance: the runtime's own
    account), or the new descriptor's controlling account if the runtime is new;
-   the kind is kept, governance may only go from entity to runtime, and a key
-   manager reference once set is neither removed nor changed. *)
+   the kind and the genesis are kept, governance may only go from entity to
+   runtime, a key manager reference once set is neither removed nor changed,
+   deployments that have started are kept as they are and the active one stays;
+   a new runtime has no deployment that is already active. *)
 Theorem authority_runtime :
   forall (addr : N -> N) (fixed : bool) (maxexp debond : N) s o s' r,
     tx_op o = true -> Inv_rt s -> step addr fixed maxexp debond s o = (COk, s') ->
@@ -221,8 +223,11 @@ Theorem authority_runtime :
       match any_runtime s r with
       | Some old => rt_acct old = Some caller /\ r_kind old = r_kind rt /\
                     (r_gov old = r_gov rt \/ (r_gov old = 1 /\ r_gov rt = 2)) /\
-                    km_changed (r_km old) (r_km rt) = false
-      | None => rt_acct rt = Some caller
+                    km_changed (r_km old) (r_km rt) = false /\
+                    r_genesis old = r_genesis rt /\
+                    deps_update_ok (s_epoch s) (r_deps old) (r_deps rt) = true /\
+                    active_kept (s_epoch s) (r_deps old) (r_deps rt) = true
+      | None => rt_acct rt = Some caller /\ active_deployment (s_epoch s) (r_deps rt) = None
       end.
 Proof. exact authority_runtime. Qed.
 Print Assumptions authority_runtime.
@@ -384,3 +389,95 @@ Theorem sanity_check_each_node :
                                  forall k, In k (n_id n :: keys n) -> In k (snd (fst x))) l.
 Proof. exact sanity_each. Qed.
 Print Assumptions sanity_check_each_node.
+
+(* ---- round 3: runtime fields, no bypass, admission limits, key reuse, removal ---- *)
+
+(* Along every history, a registered runtime stays registered and its protected
+   fields never change: kind, genesis, a key manager reference once set; the
+   governance model only from entity (1) to runtime (2). *)
+Theorem runtime_protected_fields_never_change :
+  forall (addr : N -> N) (fixed : bool) (maxexp debond : N) (ops : list op) s r rt0,
+    forallb tx_op ops = true -> Inv_rt s -> RT_ids s -> any_runtime s r = Some rt0 ->
+    exists rt1, any_runtime (run addr fixed maxexp debond ops s) r = Some rt1 /\ protected rt0 rt1.
+Proof. exact run_protected. Qed.
+Print Assumptions runtime_protected_fields_never_change.
+
+(* One handler for transactions and runtime messages, no bypass: an accepted
+   RegisterRuntime with caller account 2k (transaction signed by k) is for a
+   runtime whose controlling descriptor is entity-governed by k; with caller
+   2r+1 (message emitted by runtime r) it is for runtime r itself under runtime
+   governance. *)
+Theorem runtime_registration_no_bypass :
+  forall s caller rt,
+    RT_ids s -> reg_runtime_check s caller rt = COk ->
+    let ctl := match any_runtime s (r_id rt) with Some old => old | None => rt end in
+    (exists k, caller = 2 * k /\ r_gov ctl = 1 /\ r_ent ctl = k) \/
+    (exists r, caller = 2 * r + 1 /\ r_gov ctl = 2 /\ r_id rt = r).
+Proof. exact no_bypass. Qed.
+Print Assumptions runtime_registration_no_bypass.
+
+Theorem accepted_runtime_deployments_valid :
+  forall s caller rt,
+    reg_runtime_check s caller rt = COk ->
+    validate_deployments (s_epoch s) rt = COk /\
+    (0 < length (r_deps rt))%nat /\ N.of_nat (length (r_deps rt)) <= max_deployments /\
+    N.of_nat (length (filter (fun d => s_epoch s <? d_from d) (r_deps rt))) <= 1.
+Proof. exact accepted_deployments_all. Qed.
+Print Assumptions accepted_runtime_deployments_valid.
+
+(* While a node record exists -- live, or expired and still held during the
+   debonding interval -- none of its keys can be registered by another node id. *)
+Theorem key_of_registered_node_not_reusable :
+  forall (addr : N -> N) (fixed : bool) (maxexp debond : N) s id m k txs n signers ok,
+    Inv_index s -> aget id (s_nodes s) = Some m -> In k (keys m) ->
+    n_id n <> id -> In k (keys n) ->
+    fst (step addr fixed maxexp debond s (TRegNode txs n signers ok)) <> COk /\
+    snd (step addr fixed maxexp debond s (TRegNode txs n signers ok)) = s.
+Proof. exact key_of_registered_node_not_reusable. Qed.
+Print Assumptions key_of_registered_node_not_reusable.
+
+Theorem unheld_key_is_free :
+  forall s k,
+    Inv_index s -> (forall id m, aget id (s_nodes s) = Some m -> ~ In k (keys m)) ->
+    aget k (s_keymap s) = None.
+Proof. exact unheld_key_is_free. Qed.
+Print Assumptions unheld_key_is_free.
+
+(* An epoch transition removes exactly the nodes expired for longer than the
+   debonding interval -- whatever their status (frozen or not) -- and keeps
+   every other record unchanged. *)
+Theorem epoch_removal_exact :
+  forall (addr : N -> N) (fixed : bool) (maxexp debond : N) s e id,
+    IDS (s_nodes s) ->
+    aget id (s_nodes (snd (step addr fixed maxexp debond s (TEpoch e)))) =
+    match aget id (s_nodes s) with
+    | Some n => if removable debond e n then None else Some n
+    | None => None
+    end.
+Proof. exact epoch_removal_exact. Qed.
+Print Assumptions epoch_removal_exact.
+
+(* An accepted node registration respects the per-role limits in force: the
+   entity's other non-expired nodes with that role in that runtime, plus the
+   new one, do not exceed the entity whitelist's / per-role policy's maximum. *)
+Theorem whitelist_limit_respected :
+  forall maxexp s txs n signers ok r x wl mn role,
+    reg_node_check maxexp s txs n signers ok = COk ->
+    In r (n_rts n) -> any_runtime s r = Some x -> r_wl x = Some wl ->
+    aget (n_ent n) wl = Some mn -> mn <> [] ->
+    In role all_roles -> has_role (n_roles n) role = true ->
+    exists mx l, aget role mn = Some mx /\ entity_node_records s (n_ent n) = Some l /\
+                 N.of_nat (length (filter (counted (s_epoch s) (n_id n) (r_id x) role) l)) + 1 <= mx.
+Proof. exact whitelist_limit_respected. Qed.
+Print Assumptions whitelist_limit_respected.
+
+Theorem per_role_limit_respected :
+  forall maxexp s txs n signers ok r x role ents,
+    reg_node_check maxexp s txs n signers ok = COk ->
+    In r (n_rts n) -> any_runtime s r = Some x ->
+    In role all_roles -> has_role (n_roles n) role = true -> aget role (r_pr x) = Some ents ->
+    exists mx, aget (n_ent n) ents = Some mx /\
+      (mx = 0 \/ exists l, entity_node_records s (n_ent n) = Some l /\
+                 N.of_nat (length (filter (counted (s_epoch s) (n_id n) (r_id x) role) l)) + 1 <= mx).
+Proof. exact per_role_limit_respected. Qed.
+Print Assumptions per_role_limit_respected.
